@@ -412,6 +412,8 @@ func histDocs() map[string]*sbom.Document {
 		"D6-tree-reversed": mk("6", []string{"a", "b", "c"}, []*sbom.Edge{e("a", sbom.Edge_contains, "c"), e("c", sbom.Edge_contains, "b")}, "a"),
 		"D7-deep":          mk("7", []string{"r", "a", "b", "c"}, []*sbom.Edge{e("r", sbom.Edge_contains, "a"), e("a", sbom.Edge_contains, "b"), e("b", sbom.Edge_contains, "c")}, "r"),
 		"D8-deep-reversed": mk("8", []string{"r", "a", "b", "c"}, []*sbom.Edge{e("r", sbom.Edge_contains, "c"), e("c", sbom.Edge_contains, "b"), e("b", sbom.Edge_contains, "a")}, "r"),
+		// not normalised: repeated targets (adjacent and apart) and two edge objects per source and type
+		"D10-repeated-targets": mk("10", []string{"r", "a", "b"}, []*sbom.Edge{e("r", sbom.Edge_dependsOn, "a", "a", "b"), e("r", sbom.Edge_contains, "b", "a", "b"), e("r", sbom.Edge_dependsOn, "b", "a")}, "r"),
 		"D9-cycle":         mk("9", []string{"r", "a", "b"}, []*sbom.Edge{e("a", sbom.Edge_contains, "b"), e("b", sbom.Edge_contains, "a"), e("r", sbom.Edge_dependsOn, "a")}, "r"),
 	}
 }
@@ -423,8 +425,10 @@ type hcall struct {
 	F   formats.Format
 }
 
-func callOutput(k hcall) string {
-	out, err := rw.Write(proto.Clone(histDocs()[k.Doc]).(*sbom.Document), k.F, 2)
+func callOutput(k hcall) string { return callOutputOn(proto.Clone(histDocs()[k.Doc]).(*sbom.Document), k) }
+
+func callOutputOn(d *sbom.Document, k hcall) string {
+	out, err := rw.Write(d, k.F, 2)
 	if err != nil {
 		return "error: " + err.Error()
 	}
@@ -485,19 +489,35 @@ func histories(c *engine.Ctx) {
 				b, _ := json.Marshal(s)
 				return json.RawMessage(b)
 			}, func(t *engine.T) *engine.Violation {
-				var last string
-				for _, k := range s {
-					last = callOutput(k)
-					t.Transitions(1)
-				}
 				k := s[len(s)-1]
 				ref, err := refFor(k)
 				if err != nil {
 					return engine.Violate("harness", "", "reference process failed: %v", err)
 				}
-				t.Validated(1)
-				if last != ref {
-					return engine.Violate("history-dependent", fam(k.F), "output of %s as %s after the history differs from its output from the initial state:\nafter history: %.600s\nfrom initial:  %.600s", k.Doc, k.F, last, ref)
+				// twice: every call on a fresh copy of its document (state kept inside the library), and every call on
+				// the history's own live document values (a serializer that edits its input changes what the next one sees)
+				for _, live := range []bool{false, true} {
+					docs := map[string]*sbom.Document{}
+					for n, d := range histDocs() {
+						docs[n] = proto.Clone(d).(*sbom.Document) // the same normal form the reference process serializes
+					}
+					var last string
+					for _, k := range s {
+						if live {
+							last = callOutputOn(docs[k.Doc], k)
+						} else {
+							last = callOutput(k)
+						}
+						t.Transitions(1)
+					}
+					t.Validated(1)
+					if last != ref {
+						how := "fresh copies of the documents"
+						if live {
+							how = "the same document values throughout"
+						}
+						return engine.Violate("history-dependent", fam(k.F), "output of %s as %s after the history (%s) differs from its output from the initial state:\nafter history: %.600s\nfrom initial:  %.600s", k.Doc, k.F, how, last, ref)
+					}
 				}
 				t.State(fmt.Sprint(s))
 				t.Outcome("history-ok:" + fam(k.F))
